@@ -26,6 +26,7 @@ pub fn def() -> PropDef {
 
 pub fn profile() -> Profile {
     Profile {
+        text_conflict_prologue_permille: 120,
         replicas: (1, 4),
         events: (10, 200),
         w_save: 6,
